@@ -163,7 +163,7 @@ def run(ctx):
     expect_ve('fdd:n', 'fd_derivative with n >= len(x)', lambda: fornberg.fd_derivative(np.ones(6), np.arange(6.0), 6, 1), {})
     expect_ok('fdd', 'fd_derivative', lambda: fornberg.fd_derivative(np.arange(10.0) ** 2, np.arange(10.0), 1, 2), {})
     # Residue order, Limit path
-    for p, o_ in [(1, 1), (2, 2), (3, 1)]:
+    for p, o_ in [(1, 1), (2, 2), (3, 1), (1, 0), (2, 0), (0, 0), (3, 0), (2, -1), (1, -2)]:
         expect_ve('residue:%d:%d' % (p, o_), 'Residue(pole_order=%d, order=%d)' % (p, o_), lambda: limits.Residue(lambda z: 1 / z, pole_order=p, order=o_), {'pole_order': p, 'order': o_})
     expect_ok('residue', 'Residue default order', lambda: limits.Residue(lambda z: 1 / z, pole_order=2), {})
     for path in ('diagonal', 'Radial ', '', 'straight', 'ray', 'radials', 'spirals', 'sideways', 'r', 's', 'SPIRAL'):
